@@ -15,8 +15,10 @@ import time
 
 ROOT = os.path.dirname(os.path.dirname(os.path.abspath(__file__)))
 SPEC = os.path.join(ROOT, "spec")
-EVID = os.path.join(ROOT, "evidence")
-REPLAYS = os.path.join(ROOT, "replays")
+# VERIF_OUT: where evidence/ and replays/ go (default: /verif); set only when trying the checks on a scratch tree
+OUT = os.environ.get("VERIF_OUT", ROOT)
+EVID = os.path.join(OUT, "evidence")
+REPLAYS = os.path.join(OUT, "replays")
 KNOWN = os.path.join(ROOT, "known_findings.json")
 NCPU = min(16, os.cpu_count() or 1)
 TLA_CP = "/opt/veriftools/tla/tla2tools.jar:/opt/veriftools/tla/CommunityModules-deps.jar"
